@@ -51,7 +51,7 @@ def check(facts, rep, tier, cfg):
         for m in mins:
             for a in m[3]:
                 srcs |= rules_c03._flat_fields(a)
-        if mins and (srcs & cap):
+        if mins and (srcs & cap) and sv.kind == "call" and sv[6] in ("min", "clamp") and sv in mins:
             ok = True
         if ok:
             rep.ok("C04.R1", "threshold-bounded-by-own-window", where, "min over %s includes %s" % (sorted(srcs), sorted(cap)))
@@ -124,6 +124,14 @@ def check(facts, rep, tier, cfg):
             else:
                 rep.ok("C04.R5", b.path, "%s (%s)" % (loc_str(b.loc), b.path), "%d states" % states)
     rep.floor("C04.R5", "MuxStream poll functions", n, 8 if "std" in crate.features else 3)
+    # ---- R6 the window granted to the peer is the window the threshold is measured against
+    rep.rule("C04.R6", "the window advertised to the peer (Connect / handshake Acknowledge) is the local rwnd that bounds the ack threshold (= C03.R3/R4)")
+    sub = type(rep)(rep.prop, rep.tier, rep.config)
+    rules_c03.check_r3_r4(facts, sub, crate, inter)
+    for i in sub.instances:
+        rep.ok("C04.R6", i["key"], i["where"], i["detail"], nontrivial=False)
+    for v in sub.violations:
+        rep.bad("C04.R6", v["key"].split("/", 1)[1], v["where"], v["msg"])
 
 
 def _check_positive(facts, rep, b, bi, s, what):
